@@ -98,6 +98,10 @@ func crfoldRule(c *Ctx, rule string) {
 	}
 	sort.Slice(reads, func(i, j int) bool { return reads[i].Pos() < reads[j].Pos() })
 	if len(reads) != 2 || len(unreads) != 1 {
+		if len(reads) >= 2 && len(unreads) == 0 {
+			c.Bad(rule, "(*reader).read: look-ahead", f.Pos(), fmt.Sprintf("the underlying reader is read ahead (%d ReadRune sites) but never pushed back: the rune after a lone carriage return belongs to no token", len(reads)))
+			return
+		}
 		c.Unk(rule, "(*reader).read: look-ahead", f.Pos(), fmt.Sprintf("expected two ReadRune and one UnreadRune on the underlying reader, found %d and %d", len(reads), len(unreads)))
 		return
 	}
